@@ -49,6 +49,7 @@ class DeviceConfig:
     device_info: dict[str, Any] = field(default_factory=dict)
     entities: list[Any] = field(default_factory=list)
     hello_extra: Callable[["DeviceConn"], None] | None = None  # hook run right after sending HelloResponse
+    chunk_policy: str | None = None         # None | "coalesce" (= coalesce_replies) | "split" (every delivered buffer is cut into 1..8-byte pieces)
 
 
 class DeviceConn:
@@ -82,7 +83,7 @@ class DeviceConn:
         if self.first_byte_seq is None:
             self.first_byte_seq = seq
         self.raw_writes.append((seq, self.sim.clock, data))
-        coalesce = self.cfg.coalesce_replies
+        coalesce = self.cfg.coalesce_replies or self.cfg.chunk_policy == "coalesce"
         if coalesce:
             self.outbox = []
         try:
@@ -264,10 +265,23 @@ class DeviceConn:
                         sock.rx.append(buf)
                         buf = b""
                     sock.rx.append(b"" if it[0] == "eof" else it[1])
+            if buf and not cuts and self.cfg.chunk_policy == "split" and len(buf) > 1:
+                # TCP may hand the stream over in arbitrary pieces: cut every buffer into pieces of 1..8 bytes (deterministic pattern)
+                cuts_ = []
+                pos, k = 0, len(buf) % 5
+                while True:
+                    pos += 1 + (k * 3 + 1) % 8
+                    k += 1
+                    if pos >= len(buf):
+                        break
+                    cuts_.append(pos)
+                cuts_local: list[int] | None = cuts_
+            else:
+                cuts_local = cuts
             if buf:
-                if cuts:
+                if cuts_local:
                     prev = 0
-                    for c in [c for c in sorted(set(cuts)) if 0 < c < len(buf)]:
+                    for c in [c for c in sorted(set(cuts_local)) if 0 < c < len(buf)]:
                         sock.rx.append(buf[prev:c])
                         prev = c
                     sock.rx.append(buf[prev:])
@@ -292,10 +306,27 @@ class DeviceConn:
         return [r["name"] or f"#{r['id']}" for r in self.received]
 
 
+AUTO_ROTATE = False      # set by a check's shard(): devices whose config leaves the chunking open get a policy by rotation
+_ROTATION = 0
+FORCED_POLICY: str | None = None   # set by `./check Cxx --replay` from the witness file
+LAST_POLICY = "as-written"
+POLICY_COUNTS: dict[str, int] = {}
+
+
 class SimDevice:
     def __init__(self, sim: Any, cfg: DeviceConfig | None = None) -> None:
+        global _ROTATION
         self.sim = sim
         self.cfg = cfg or DeviceConfig()
+        global LAST_POLICY
+        open_ = self.cfg.chunk_policy is None and not self.cfg.coalesce_replies and not self.cfg.coalesce_cuts
+        if FORCED_POLICY is not None and open_:
+            self.cfg.chunk_policy = None if FORCED_POLICY == "as-written" else FORCED_POLICY      # replay of a recorded case
+        elif AUTO_ROTATE and open_:
+            _ROTATION += 1
+            self.cfg.chunk_policy = (None, "coalesce", None, "split", None)[_ROTATION % 5]
+        LAST_POLICY = self.cfg.chunk_policy or "as-written"
+        POLICY_COUNTS[str(self.cfg.chunk_policy)] = POLICY_COUNTS.get(str(self.cfg.chunk_policy), 0) + 1
         self.proto = protoparse.load_api()
         self.conns: list[DeviceConn] = []
         self.on_accept: Callable[[DeviceConn], None] | None = None
